@@ -159,9 +159,10 @@ def _control_flow(prog, rep):
 
 
 def run(prog, rep):
-    with prog.raw():
-        if not _control_flow(prog, rep):
-            return
+    # the control-flow rules run on the inlined view: a gate moved into a new helper is seen at its call site, and the helper's
+    # `return Err(..)` followed by the caller's `?` is one path thanks to jump threading (inline.thread_known_discriminants)
+    if not _control_flow(prog, rep):
+        return
     f = prog.fns.get("cli::main")
     body, tr = f.body, Tracer(f.body)
     def calls(pat):
@@ -186,6 +187,38 @@ def run(prog, rep):
     src_src = utf8_calls(tr.operand(ex[0][1]["args"][2]))
     src_same = bool(src_src) and src_src <= tree_src and '"source"' in ea[2]
     rep.check(oke and src_same, "C19.R5", "main :: execute arguments", "", "file.execute(&tree, &source, &config, &NoCancellation) with tree = parse(source)", "execute() is called with %s" % [a[:50] for a in ea])
+    # the texts handed to the library are the bytes of the two files, decoded and otherwise untouched (no trimming, BOM or newline
+    # normalisation): the library must see what a library user reading the same file would give it
+    def file_text(e):
+        """peel error-handling wrappers; the core must be String::from_utf8(fs::read(..))"""
+        seen = []
+        for _ in range(40):
+            e = strip(e)
+            if e[0] == "place":
+                e = e[1]
+                continue
+            if e[0] == "call":
+                d = e[1] or ""
+                if re.search(r"(Try::branch|Context::with_context|Context::context|Result::map_err|Result::unwrap|Result::expect)$", d) or \
+                        re.search(r"(Result|Option)::(ok_or_else|or_else)$", d):
+                    e = e[3][0]
+                    continue
+                if re.search(r"String::from_utf8$", d) and not seen:
+                    seen.append("from_utf8")
+                    e = e[3][0]
+                    continue
+                if re.search(r"std::fs::read$", d) and seen == ["from_utf8"]:
+                    return True, canon(strip(e[3][0]))
+            return False, canon(e)[:100]
+        return False, "?"
+    fs_ = calls(r"parser::<impl tsg::ast::File>::from_str$|ast::File::from_str$")
+    texts = [("DSL text", tr.operand(t["args"][1])) for b, t in fs_] + [("source text (parse)", tr.operand(t["args"][1])) for b, t in calls(r"tree_sitter::Parser::parse$")] + \
+            [("source text (execute)", tr.operand(ex[0][1]["args"][2]))]
+    for what, e in texts:
+        ok, core = file_text(e)
+        rep.check(ok, "C19.R5", "main :: %s is the file as read" % what, "", "String::from_utf8(fs::read(%s)) handed on untouched" % core[:60],
+                  "the %s given to the library is not the decoded file content itself: %s" % (what, core))
+    rep.floor("C19.R5", len(texts), 3, "texts handed to the library")
     dja = canon_full(tr.operand(dj[0][1]["args"][1]))
     rep.check(re.match(r'^Option::map\(ArgMatches::value_of\(.*, "output"\), main::\{closure#\d+\}\{\}\)$', dja) is not None, "C19.R5", "main :: --output", "", "display_json(value_of(\"output\").map(Path::new))", "display_json's path argument is %s" % dja[:100])
     outc = [b for b, t in calls(r"clap::ArgMatches::value_of$") if canon(strip(tr.operand(t["args"][1]))) == '"output"']
